@@ -53,6 +53,8 @@ type c04Builtin struct {
 	keys      []string
 	npos      int
 	types     []string // documented Type of the positional parameters
+	hasRest   bool
+	aok       bool
 }
 
 func (b c04Builtin) key() string { return b.name }
@@ -126,28 +128,35 @@ func c04FillRanges(c *lib.Ctx, bs []c04Builtin) {
 		bs[i].min, _ = strconv.Atoi(w[1])
 		bs[i].max = c04ParseMax(w[2])
 		bs[i].nodup = c04ParseMax(w[3])
-		// positional count and key names (for benign argument vectors)
-		mode := "pos"
-		for _, d := range bs[i].doc {
-			switch d {
-			case "&optional":
-			case "&rest", "&body":
-				mode = "rest"
-			case "&key":
-				mode = "key"
-			case "&allow-other-keys":
-			case "&aux":
-				mode = "aux"
-			default:
-				switch mode {
-				case "pos":
-					bs[i].npos++
-					bs[i].types = append(bs[i].types, c04DocType(bs[i].fi, d))
-				case "key":
-					bs[i].keys = append(bs[i].keys, strings.TrimPrefix(d, ":"))
-				case "rest":
-					mode = "afterrest"
-				}
+		bs[i].fillShape()
+	}
+}
+
+// fillShape: positional count, documented types and key names (for benign argument vectors)
+func (b *c04Builtin) fillShape() {
+	b.npos, b.types, b.keys, b.hasRest = 0, nil, nil, false
+	mode := "pos"
+	for _, d := range b.doc {
+		switch d {
+		case "&optional":
+		case "&rest", "&body":
+			mode = "rest"
+			b.hasRest = true
+		case "&key":
+			mode = "key"
+		case "&allow-other-keys":
+			b.aok = true
+		case "&aux":
+			mode = "aux"
+		default:
+			switch mode {
+			case "pos":
+				b.npos++
+				b.types = append(b.types, c04DocType(b.fi, d))
+			case "key":
+				b.keys = append(b.keys, strings.TrimPrefix(d, ":"))
+			case "rest":
+				mode = "afterrest"
 			}
 		}
 	}
@@ -367,8 +376,11 @@ func c04Worker() {
 		os.Exit(3)
 	}
 	byKey := map[string]*slip.FuncInfo{}
+	byKeyB := map[string]*c04Builtin{}
 	for _, b := range c04Enumerate() {
 		byKey[b.pkg+" "+b.name] = b.fi
+		bb := b
+		byKeyB[b.pkg+" "+b.name] = &bb
 	}
 	c04DefineProbes()
 	sc := bufio.NewScanner(f)
@@ -377,6 +389,17 @@ func c04Worker() {
 	for sc.Scan() {
 		idx++
 		if idx < start {
+			continue
+		}
+		if strings.HasPrefix(sc.Text(), "K ") {
+			w := strings.Fields(sc.Text())
+			res := "missing"
+			if b := byKeyB[w[1]+" "+w[2]]; b != nil {
+				fmt.Fprintf(out, "%d begin\n", idx)
+				b.fillShape()
+				res = c04KeyTailWork(*b)
+			}
+			fmt.Fprintf(out, "%d %s\n", idx, strings.ReplaceAll(res, " ", "~"))
 			continue
 		}
 		variants := strings.Split(sc.Text(), "|")
@@ -411,7 +434,15 @@ func c04RunCells(c *lib.Ctx, lines []string) []string {
 	_ = os.WriteFile(cells, []byte(strings.Join(lines, "\n")+"\n"), 0o644)
 	res := make([]string, len(lines))
 	start := 0
+	// no-progress deadline of a worker: 20 s; a cell that stalls is run once more, alone at the head
+	// of a fresh worker, with 120 s before it counts as a timeout — the coverage does not depend
+	// on the load of the machine
+	retried := map[int]bool{}
 	for start < len(lines) {
+		deadline := 20 * time.Second
+		if retried[start] {
+			deadline = 120 * time.Second
+		}
 		pr, pw, err := os.Pipe()
 		if err != nil {
 			fmt.Fprintln(os.Stderr, "pipe:", err)
@@ -460,7 +491,7 @@ func c04RunCells(c *lib.Ctx, lines []string) []string {
 					current = -1
 					start = i + 1
 				}
-			case <-time.After(15 * time.Second):
+			case <-time.After(deadline):
 				why = "timeout"
 				_ = cmd.Process.Kill()
 				break loop
@@ -471,6 +502,11 @@ func c04RunCells(c *lib.Ctx, lines []string) []string {
 		pr.Close()
 		if finished {
 			break
+		}
+		if current >= 0 && why == "timeout" && !retried[current] {
+			retried[current] = true
+			start = current
+			continue
 		}
 		if current >= 0 {
 			res[current] = why
@@ -552,7 +588,23 @@ func c04Builtins(c *lib.Ctx) {
 			refs = append(refs, cellRef{i, n})
 		}
 	}
+	// part (ii-b): the key section (c04_keytail.go), one line per built-in with documented keys
+	var ktIdx []int
+	ktStart := len(lines)
+	for i, b := range bs {
+		if _, no := c04Deny[b.name]; no || b.badDoc || len(b.keys) == 0 || b.hasRest || b.aok {
+			continue
+		}
+		lines = append(lines, c04KeyTailLine(b))
+		ktIdx = append(ktIdx, i)
+	}
 	res := c04RunCells(c, lines)
+	ktReplies := make([]string, len(ktIdx))
+	for k := range ktIdx {
+		ktReplies[k] = strings.ReplaceAll(res[ktStart+k], "~", " ")
+	}
+	res = res[:ktStart]
+	defer c04KeyTailJudge(c, bs, ktIdx, ktReplies)
 	verdicts := map[int]*c04Verdict{}
 	get := func(i int) *c04Verdict {
 		if verdicts[i] == nil {
